@@ -6,6 +6,7 @@ import Oq3.Driver.Tree
 import Oq3.Driver.Pratt
 import Oq3.Driver.Include
 import Oq3.Driver.Sema
+import Oq3.Driver.Accessors
 
 open Oq3.Driver
 
@@ -32,6 +33,7 @@ def main (args : List String) : IO UInt32 := do
   | ["pratt"] => loop stdin stdout prattLine; return 0
   | ["parse"] => loop stdin stdout parseLine; return 0
   | ["sema"] => loop stdin stdout semaLine; return 0
+  | ["accessors"] => loop stdin stdout accessorsLine; return 0
   | ["tree", uc] => do
       let tab ← readUClass uc
       loop stdin stdout (treeLine tab); return 0
